@@ -88,9 +88,26 @@ def fresh(s):
     return "".join([c for c in s])
 
 
-def freshen(net):
+def freshen(net, mode=1):
+    """Rebuild a query from string objects that are equal to the pool's labels
+    but not the same objects.  mode 0: one shared object per label (what
+    literals / interned strings give); mode 1: a fresh object for EVERY
+    occurrence of a label; mode 2: a fresh object per label, shared between its
+    occurrences.  (pickle memoises by identity, so the three differ in their
+    byte streams unless the fingerprint canonicalises objects.)"""
     ins, out, sd = net
-    return (tuple(tuple(fresh(x) for x in t) for t in ins), tuple(fresh(x) for x in out), {fresh(k): int(v) for k, v in sd.items()})
+    if mode == 0:
+        return tuple(tuple(t) for t in ins), tuple(out), {k: int(v) for k, v in sd.items()}
+    if mode == 2:
+        m = {}
+
+        def f(x):
+            if x not in m:
+                m[x] = fresh(x)
+            return m[x]
+    else:
+        f = fresh
+    return (tuple(tuple(f(x) for x in t) for t in ins), tuple(f(x) for x in out), {f(k): int(v) for k, v in sd.items()})
 
 
 # independent canonical forms (from the property statement)
@@ -200,7 +217,7 @@ def run_seq(case):
             model = {}  # canonical form -> {"path":..., "score":...}
             canon = CANON[cfg["hash"]]
             for pos, qi in enumerate(seq):
-                q = freshen(pool[qi])
+                q = freshen(pool[qi], mode=(pos + qi) % 3)
                 ins, out, sd = q
                 c = canon(q)
                 where = f"query #{pos} ({case['pool'][qi]})"
@@ -443,15 +460,19 @@ def check_fingerprints(count, rng):
             m = _mutate(m, rng)
         nets.append(m)
     problems = []
-    ha = [hash_contraction_a(*freshen(n)) for n in nets]
-    hb = [hash_contraction_b(*freshen(n)) for n in nets]
-    ha2 = [hash_contraction_a(*freshen(n)) for n in nets]
+    ha = [hash_contraction_a(*freshen(n, 0)) for n in nets]
+    hb = [hash_contraction_b(*freshen(n, 0)) for n in nets]
+    ha2 = [hash_contraction_a(*freshen(n, 1)) for n in nets]
+    ha3 = [hash_contraction_a(*freshen(n, 2)) for n in nets]
+    hb2 = [hash_contraction_b(*freshen(n, 1)) for n in nets]
     ca = [canon_a(n) for n in nets]
     cb = [canon_b(n) for n in nets]
     pairs = eq_a = eq_b = 0
     for i in range(len(nets)):
-        if ha[i] != ha2[i]:
+        if not (ha[i] == ha2[i] == ha3[i]):
             problems.append(("hash 'a' of the same contraction built from fresh label objects differs", {"net": nets[i]}))
+        if hb[i] != hb2[i]:
+            problems.append(("hash 'b' of the same contraction built from fresh label objects differs", {"net": nets[i]}))
         for j in range(i, len(nets)):
             pairs += 1
             if (ha[i] == ha[j]) != (ca[i] == ca[j]):
@@ -478,7 +499,9 @@ def _replay_fingerprint(case):
     n2 = load(case.get("net2", case["net"]))
     msgs = []
     for nm, hf, cf in (("a", hash_contraction_a, canon_a), ("b", hash_contraction_b, canon_b)):
-        he = hf(*freshen(n1)) == hf(*freshen(n2))
+        if len({hf(*freshen(n1, m)) for m in (0, 1, 2)}) != 1:
+            msgs.append(f"hash '{nm}' depends on the identity of the label objects")
+        he = hf(*freshen(n1, 0)) == hf(*freshen(n2, 1))
         ce = cf(n1) == cf(n2)
         if he != ce:
             msgs.append(f"hash '{nm}' equal={he} but canonical forms equal={ce}")
@@ -585,7 +608,7 @@ def run_reload(case):
             opt = _make_opt(cfg, d)
             expect = []
             for name in case["queries"]:
-                ins, out, sd = freshen(_variant(name))
+                ins, out, sd = freshen(_variant(name), 0)
                 t = opt.search(ins, out, sd)
                 expect.append([list(map(list, t.get_path())), list(t.sliced_inds)])
             # the answers the parent itself now gives from the cache
@@ -688,7 +711,7 @@ def build_cases(tier):
 
 def run_bounded(rep: Report, tier: str) -> None:
     quick = tier == "quick"
-    dl = deadline(tier, 80, 1500)
+    dl = deadline(tier, 300, 1800)
     rng = random.Random(seed() * 101 + 14)
     rep.rule = (
         "a case = (optimizer kind, hash_method, directory?, directory_split, overwrite, slicing, search/__call__ mode, cache_only switch "
